@@ -1,0 +1,72 @@
+//go:build verif
+
+// Verification hooks (add-only, compiled only with -tags verif). They expose
+// unexported entry points of the server to the out-of-tree correspondence
+// harness in /verif; no existing behaviour is changed.
+package server
+
+import (
+	"fmt"
+	"net/http"
+	"time"
+
+	"github.com/sassoftware/relic/v8/config"
+	"github.com/sassoftware/relic/v8/internal/authmodel"
+	"github.com/sassoftware/relic/v8/internal/realip"
+	"github.com/sassoftware/relic/v8/token"
+)
+
+// VerifNew builds a Server like New but with caller-supplied tokens, and
+// without opening tokens or starting the health check goroutine.
+func VerifNew(cfg *config.Config, tokens map[string]token.Token) (*Server, error) {
+	closed := make(chan bool)
+	auth, err := authmodel.New(cfg)
+	if err != nil {
+		return nil, fmt.Errorf("configuration authentication: %w", err)
+	}
+	realIP, err := realip.Middleware(cfg.Server.TrustedProxies)
+	if err != nil {
+		return nil, err
+	}
+	if tokens == nil {
+		tokens = make(map[string]token.Token)
+	}
+	return &Server{
+		Config:  cfg,
+		Closed:  closed,
+		closeCh: closed,
+		auth:    auth,
+		realIP:  realIP,
+		tokens:  tokens,
+	}, nil
+}
+
+// VerifOpenTokens runs the production token-opening logic.
+func (s *Server) VerifOpenTokens() error { return s.openTokens() }
+
+// VerifHealthCheck runs one round of the token health check.
+func (s *Server) VerifHealthCheck() bool { return s.healthCheck() }
+
+// VerifHealthLoop runs the health check loop in the calling goroutine.
+func (s *Server) VerifHealthLoop() { s.healthCheckLoop() }
+
+// VerifStartHealthCheck initialises the health state and starts the loop as New does.
+func (s *Server) VerifStartHealthCheck() error { return s.startHealthCheck() }
+
+// VerifHealthy evaluates the health predicate.
+func (s *Server) VerifHealthy(r *http.Request) bool { return s.Healthy(r) }
+
+// VerifSetHealth overwrites the package-level health state.
+func VerifSetHealth(status int, last time.Time) {
+	healthMu.Lock()
+	defer healthMu.Unlock()
+	healthStatus = status
+	healthLastPing = last
+}
+
+// VerifGetHealth reads the package-level health state.
+func VerifGetHealth() (int, time.Time) {
+	healthMu.Lock()
+	defer healthMu.Unlock()
+	return healthStatus, healthLastPing
+}
